@@ -179,8 +179,28 @@ fn real_view(v: &V) -> View {
             }
         }
         V::Text(s) => s.clone().into(),
-        V::DText(s) => { let s = s.clone(); View::from_dynamic(move || s.clone()) }
-        V::DView(c) => { let c = c.clone(); View::from_dynamic(move || View::from(c.iter().map(real_view).collect::<Vec<View>>())) }
+        // every other dynamic part reads a flag that a cleanup of the page sets when the render scope is torn down:
+        // the string is what the view showed when it was built, not what is left after the teardown
+        V::DText(s) => {
+            let s = s.clone();
+            if s.len() % 2 == 0 {
+                let flag = sycamore_reactive::create_signal(false);
+                sycamore_reactive::on_cleanup(move || flag.set(true));
+                View::from_dynamic(move || if flag.get() { "torn-down".to_string() } else { s.clone() })
+            } else {
+                View::from_dynamic(move || s.clone())
+            }
+        }
+        V::DView(c) => {
+            let c = c.clone();
+            if c.len() % 2 == 1 {
+                let flag = sycamore_reactive::create_signal(false);
+                sycamore_reactive::on_cleanup(move || flag.set(true));
+                View::from_dynamic(move || if flag.get() { View::new() } else { View::from(c.iter().map(real_view).collect::<Vec<View>>()) })
+            } else {
+                View::from_dynamic(move || View::from(c.iter().map(real_view).collect::<Vec<View>>()))
+            }
+        }
         V::Frag(c) => View::from(c.iter().map(real_view).collect::<Vec<View>>()),
     }
 }
